@@ -9,13 +9,13 @@ C10_F = ['core.Cache.push', 'core.Cache.pull', 'core.Cache.peek']
 
 def jobs(tier):
     out = []
-    b = 120 if tier == 'quick' else 600
+    b = 240 if tier == 'quick' else 900
 
     def add(module, func, tags, functions, budget=b, **extra):
         out.append(dict(id='e2.%s.%s' % (module.split('.')[-1], func), engine='E2', module=module, func=func, params={'engine': 'CrossHair', 'per_condition_timeout_s': budget},
                         tags=tags.split(','), functions=functions, budget_s=budget, weight=50, twin=False, **extra))
-    for f in ('rt_graph', 'rt_str', 'rt_str_file', 'rt_bytes', 'rt_int', 'rt_stream', 'rt_float', 'rt_float_special', 'rt_misc'):
-        add('obligations.ch.disk_rt', f, 'C01,C08' if f in ('rt_str', 'rt_str_file', 'rt_bytes', 'rt_stream') else 'C01', C01_F)
+    for f in ('rt_str_pool', 'rt_graph', 'rt_str', 'rt_str_file', 'rt_bytes', 'rt_int', 'rt_stream', 'rt_float', 'rt_float_special', 'rt_misc'):
+        add('obligations.ch.disk_rt', f, 'C01,C08' if f in ('rt_str', 'rt_str_file', 'rt_bytes', 'rt_stream') else ('C01,C03' if f in ('rt_misc', 'rt_float_special') else 'C01'), C01_F)
     add('obligations.ch.disk_rt', 'rt_json', 'C01,C02', C01_F + ['core.JSONDisk.put', 'core.JSONDisk.get', 'core.JSONDisk.store', 'core.JSONDisk.fetch'])
     add('obligations.ch.disk_rt', 'json_keys_distinct', 'C02', ['core.JSONDisk.put'])
     for f in ('key_rt_int', 'key_rt_str', 'key_rt_bytes', 'key_rt_boundary', 'key_put_float', 'alias_int_int', 'alias_int_float_boundary',
